@@ -85,6 +85,25 @@ type NodeWithAnExceptionallyLongGoTypeNameForItsErrorContexts struct {
 	Name  string                                                              `frugal:"9,optional,string"`
 }
 
+// NodeD is Node with a default initialiser: the decoder takes another path
+// (InitDefault before decoding) for every struct it creates.
+type NodeD struct {
+	Val   int32            `frugal:"1,default,i32"`
+	Next  *NodeD           `frugal:"2,optional,NodeD"`
+	Kids  []*NodeD         `frugal:"3,optional,list<NodeD>"`
+	KSet  []*NodeD         `frugal:"4,optional,set<NodeD>"`
+	ByVal map[int32]*NodeD `frugal:"5,optional,map<i32:NodeD>"`
+	ByKey map[*NodeD]int8  `frugal:"6,optional,map<NodeD:i8>"`
+	Vals  []NodeD          `frugal:"7,optional,list<NodeD>"`
+	MVal  map[string]NodeD `frugal:"8,optional,map<string:NodeD>"`
+	Name  string           `frugal:"9,optional,string"`
+}
+
+func (p *NodeD) InitDefault() {
+	p.Val = 5
+	p.Name = "d"
+}
+
 // NodeU is Node with an unknown-fields holder and fewer known fields: the
 // "older reader" of Node messages.
 type NodeU struct {
@@ -160,32 +179,34 @@ type VV struct {
 // ---- defaults
 
 type Defs struct {
-	B    bool             `frugal:"1,optional,bool"`
-	I8   int8             `frugal:"2,optional,i8"`
-	I16  int16            `frugal:"3,optional,i16"`
-	I32  int32            `frugal:"4,optional,i32"`
-	I64  int64            `frugal:"5,optional,i64"`
-	D    float64          `frugal:"6,optional,double"`
-	DZ   float64          `frugal:"7,optional,double"`
-	DN   float64          `frugal:"8,optional,double"`
-	E    E0               `frugal:"9,optional,E0"`
-	S    string           `frugal:"10,optional,string"`
-	SZ   string           `frugal:"11,optional,string"`
-	Bin  []byte           `frugal:"12,optional,binary"`
-	BinZ []byte           `frugal:"13,optional,binary"`
-	RI32 int32            `frugal:"20,default,i32"`
-	RS   string           `frugal:"21,default,string"`
-	RD   float64          `frugal:"22,default,double"`
-	QI64 int64            `frugal:"30,required,i64"`
-	QS   string           `frugal:"31,required,string"`
-	PI32 *int32           `frugal:"40,optional,i32"`
-	PS   *string          `frugal:"41,optional,string"`
-	PD   *float64         `frugal:"42,optional,double"`
-	L    []int32          `frugal:"50,optional,list<i32>"`
-	LD   []int32          `frugal:"51,default,list<i32>"`
-	M    map[string]int64 `frugal:"52,optional,map<string:i64>"`
-	Sub  *Leaf            `frugal:"60,optional,Leaf"`
-	NoDf int32            `frugal:"70,optional,i32"` // not touched by InitDefault: default is zero
+	B       bool             `frugal:"1,optional,bool"`
+	I8      int8             `frugal:"2,optional,i8"`
+	I16     int16            `frugal:"3,optional,i16"`
+	I32     int32            `frugal:"4,optional,i32"`
+	I64     int64            `frugal:"5,optional,i64"`
+	D       float64          `frugal:"6,optional,double"`
+	DZ      float64          `frugal:"7,optional,double"`
+	DN      float64          `frugal:"8,optional,double"`
+	E       E0               `frugal:"9,optional,E0"`
+	S       string           `frugal:"10,optional,string"`
+	SZ      string           `frugal:"11,optional,string"`
+	Bin     []byte           `frugal:"12,optional,binary"`
+	BinZ    []byte           `frugal:"13,optional,binary"`
+	RI32    int32            `frugal:"20,default,i32"`
+	RS      string           `frugal:"21,default,string"`
+	RD      float64          `frugal:"22,default,double"`
+	QI64    int64            `frugal:"30,required,i64"`
+	QS      string           `frugal:"31,required,string"`
+	PI32    *int32           `frugal:"40,optional,i32"`
+	PS      *string          `frugal:"41,optional,string"`
+	PD      *float64         `frugal:"42,optional,double"`
+	L       []int32          `frugal:"50,optional,list<i32>"`
+	LD      []int32          `frugal:"51,default,list<i32>"`
+	M       map[string]int64 `frugal:"52,optional,map<string:i64>"`
+	Sub     *Leaf            `frugal:"60,optional,Leaf"`
+	NoDf    int32            `frugal:"70,optional,i32"`    // not touched by InitDefault: default is zero
+	NoDfBin []byte           `frugal:"71,optional,binary"` // not touched either: the default is the nil binary, which an empty one equals
+	NoDfS   string           `frugal:"72,optional,string"`
 }
 
 func (p *Defs) InitDefault() {
